@@ -21,6 +21,7 @@ package main
 
 import (
 	"fmt"
+	"os"
 	"sort"
 	"strings"
 	"time"
@@ -426,6 +427,16 @@ func scenarios(cfg *vlib.Config) []vx.Scenario {
 			sc.SetBound, sc.P, sc.T = true, sp.maxP, 1
 		}
 		out = append(out, sc)
+	}
+	out = append(out, groupScenarios(cfg)...)
+	if only := os.Getenv("VERIF_C02_ONLY"); only != "" { // experiments only: scenarios whose name starts with sched/ or group/
+		var keep []vx.Scenario
+		for _, sc := range out {
+			if strings.HasPrefix(sc.Name, only) {
+				keep = append(keep, sc)
+			}
+		}
+		out = keep
 	}
 	return out
 }
